@@ -266,7 +266,7 @@ def check_case(case, rec):
             return
         if molgen.snapshot(y) != molgen.snapshot(x) and (canon_safe(y) != canon_safe(x) or in_gap(x)) and not in_gap(x):
             rec.fail('idempotent', f'{label}: second application changes {str(x)!r} -> {str(y)!r}',
-                     sig='vicinal-N-oxides' if vicinal_n_oxides(x) else op)
+                     sig='vicinal-N-oxides' if vicinal_n_oxides(x) else ('two-donor-cation' if two_donor_cation(x) else op))
             return
         # numbering independence
         if comparable:
@@ -304,6 +304,13 @@ def wl_equal(a, b):
     """colour refinement cannot tell the two (stereo-stripped, Kekule) graphs apart: treated as the same molecule (the canonical
     strings of symmetric Kekule forms may differ by the known C01 tie-break finding)"""
     from ..oracles import wl
+    try:  # RDKit's aromaticity model unifies Kekule forms that chython keeps localised (quinoid dyes)
+        from rdkit import Chem
+        ra, rb = Chem.MolFromSmiles(str(a)), Chem.MolFromSmiles(str(b))
+        if ra is not None and rb is not None and Chem.MolToSmiles(ra) == Chem.MolToSmiles(rb):
+            return True
+    except ImportError:
+        pass
 
     def norm(m):
         c = m.copy()
@@ -324,6 +331,19 @@ def wl_equal(a, b):
     adj.update({('b', n): {('b', k): o for k, o in nb.items()} for n, nb in ab.items()})
     r = wl.refine(col, adj)
     return sorted(v for (s, _), v in r.items() if s == 'a') == sorted(v for (s, _), v in r.items() if s == 'b')
+
+
+def two_donor_cation(m):
+    """delocalised cation (iminium / thiopyrylium / pyrylium type) with two or more amine donors on the conjugated system
+    (methylene-blue, cyanine type): the resonance fixer moves the charge to another donor on every call (known finding)"""
+    if not any(a.charge > 0 and a.atomic_number in (7, 8, 16) and a.hybridization in (2, 4) for _, a in m.atoms()):
+        return False
+    donors = 0
+    for n, a in m.atoms():
+        if a.atomic_number == 7 and (a.hybridization in (2, 4) and a.charge == 1 and not a.in_ring or a.hybridization == 1 and not a.charge):
+            if any(m.atom(k).atomic_number == 6 and m.atom(k).hybridization in (2, 4) for k in m._bonds[n]):
+                donors += 1
+    return donors >= 2
 
 
 def canon_safe(m):
